@@ -400,3 +400,14 @@ Theorem uid_lt_ignores_noncert : forall K a b s,
 Proof.
   intros K a b s H. unfold uid_lt, uid_lt_with, uid_is_primary, uid_is_primary_with. rewrite (noncert_keeps_effective K a s H). simpl. repeat split.
 Qed.
+
+(* ---------- PGPKey.parse after repair bf7dbf5 ---------- *)
+(* an opaque primary key packet and everything after it up to the next understood primary key packet leaves no trace *)
+Lemma drop_skipped_true_nokey : forall gs, (forall g, In g gs -> match fst g with PKey true _ _ _ => False | _ => True end) ->
+  drop_skipped true gs = [].
+Proof.
+  induction gs as [|[h ss] r IH]; intros H; [reflexivity|]. cbn [drop_skipped].
+  pose proof (H (h, ss) (or_introl eq_refl)) as Hh. cbn [fst] in Hh.
+  assert (Hr : drop_skipped true r = []) by (apply IH; intros g Hg; apply H; right; exact Hg).
+  destruct h as [prim pub cs l|isu c|s| |st id|id]; try exact Hr. destruct prim; [contradiction|exact Hr].
+Qed.
